@@ -1551,6 +1551,9 @@ impl Vm {
         if caught || handler.frame_count < self.active_fiber().frames.len() {
             self.active_fiber_mut().error_ip = None;
         }
+        // Variables of the abandoned scopes and frames that closures captured keep their values.
+        self.active_fiber_mut()
+            .close_upvalues(handler.init_stack_size);
         self.active_fiber_mut()
             .stack
             .truncate(handler.init_stack_size);
